@@ -20,6 +20,12 @@ Theorem C01_header_accessors_32 : forall m soi, validate fmt32 m = Ok soi -> For
 Proof. exact HeadersProofs.accessors_ok32. Qed.
 Print Assumptions C01_header_accessors_32.
 
+(* 1b. check_sum and rich_structure reinterpret the whole image as len/4 dwords: aligned and inside the buffer *)
+Theorem C01_dword_view : forall f m soi, validate f m = Ok soi ->
+  (m_addr m + 0) mod 4 = 0 /\ 0 + 4 * (m_len m / 4) <= m_len m.
+Proof. exact SafetyProofs.dword_view_safe. Qed.
+Print Assumptions C01_dword_view.
+
 (* 2. slice / read, file and mapped views: whatever (rva | va, min_size, align) is passed, a returned slice lies
       inside the buffer, has at least min_size bytes, and its START ADDRESS is a multiple of align. *)
 Theorem C01_slice : forall v rva min_size align r, placed (v_addr v) (v_len v) ->
